@@ -155,7 +155,8 @@ void sync_shallow_tree(const char *destination, const char *source,
   struct buffer *filter_path = create_buffer(trace);
   concat_string(existence_filter_root, filter_path, trace);
   concat_char('/', filter_path, trace);
-  size_t filter_root_length = get_length(get_view(filter_path));
+  size_t filter_root_length =
+      ok(trace) ? get_length(get_view(filter_path)) : 0;
 
   for (FTSENT *entry = fts_read(fts); entry && ok(trace);
        entry = fts_read(fts)) {
